@@ -35,7 +35,7 @@ TRANSPORTS = "hook,chan,live"
 DETECTS = ["inside", "outside", "enter", "exit", "cross"]
 VARIANTS = {"NoFallback": "NoOther", "CrossAlone": "NoOther", "FsetEnter": "NoOther", "CrossFromInside": "NoOther",
             "NoUnionSearch": "TransportsAgree", "NewRectOnly": "TransportsAgree", "StrOrigin": "NoOther"}
-THOROUGH_BUDGET_S = 1000
+THOROUGH_BUDGET_S = 900
 PAR = max(4, min(common.NCPU, 12))
 
 # ---------------------------------------------------------------- scenes (frame coordinates: the frame is [0,1] x [0,1])
@@ -442,19 +442,18 @@ def run(ctx):
             os.remove(part)
         os.remove(beh)
 
-    # ---- scene 1: one rectangular area, every DETECT subset, COMMANDS / MATCH filters; positions only.
-    #      quick: one object (every (previous, new) position class x every fence); thorough: two objects, all populations
+    # ---- scene 1: one rectangular area, every DETECT subset, COMMANDS / MATCH filters; one object: every (previous, new)
+    #      position class x every fence; thorough: more cells, the fences that need a touring sentinel, all populations
     cells1 = ["A", "B", "C", "D", "E", "H", "S"] if ctx.quick else ["A", "B", "C", "D", "E", "H", "K", "S"]
     sc1 = scene("detect32", F_PHX, cells1, [a_bounds("within")], fences_detect32() + fences_filters(full=not ctx.quick))
-    t1, tp1, beh1 = cover("detect32", sc1, ctx.pick(IDS1, IDS2), [0], [-1], [2, 1], ctx.pick([50], [0, 1, 50, 2000]),
-                          rereg=ctx.pick(4, 150), timeout=2400)
+    t1, tp1, beh1 = cover("detect32", sc1, IDS1, [0], [-1], [2, 1], ctx.pick([50], [0, 1, 50, 2000]), rereg=4, timeout=2400)
     variants = design_variants(ctx, where_scene_table(table), IDS2, PATS, [0, 5, 20], [-1, 5, 20], [])
 
-    # ---- scene 1b (quick): two objects (PDEL, DROP, ids for MATCH) with a selection of the fences
-    if ctx.quick:
-        fs = [fence(1, d) for d in (None, ["cross"], ["enter", "exit"], ["inside"], ["outside"], ["exit", "cross"])] + \
-            fences_filters(full=False)
-        cover("pairs", scene("pairs", F_SOUTH, ["A", "B", "D", "S"], [a_bounds("intersects")], fs), IDS2, [0], [-1], [2], [1])
+    # ---- scene 1b: two objects (PDEL, DROP, ids for MATCH) with a selection of the fences
+    fs = [fence(1, d) for d in (None, ["cross"], ["enter", "exit"], ["inside"], ["outside"], ["exit", "cross"])] + \
+        fences_filters(full=False)
+    cover("pairs", scene("pairs", F_SOUTH, ["A", "B", "D", "S"] if ctx.quick else ["A", "B", "C", "D", "H", "S"],
+                         [a_bounds("intersects")], fs), IDS2, [0], [-1], [2], ctx.pick([1], [1, 2000]), rereg=ctx.pick(0, 40), timeout=2400)
 
     # ---- scene 1c: a single fence on a server with no other hook at all, one registration at a time
     #      (registries with exactly one entry: "however many other fences exist" includes none)
@@ -474,8 +473,11 @@ def run(ctx):
 
     # ---- scene 2: WHERE / NOFIELDS on a circle (NEARBY POINT), field values below / inside the WHERE range
     sc2 = scene("where", F_EQ, ["A", "N", "D"] if ctx.quick else ["A", "N", "D", "K"], [a_nearby()], fences_where())
-    cover("where", sc2, ctx.pick(IDS1, IDS2), [0, 5, 20], [-1, 0, 5, 20], [2], ctx.pick([0], [0, 1, 50]), rereg=ctx.pick(0, 200),
-          timeout=2400)
+    cover("where", sc2, IDS1, [0, 5, 20], [-1, 0, 5, 20], [2], ctx.pick([0], [0, 50]), rereg=ctx.pick(0, 20), timeout=2400)
+    if not ctx.quick:
+        # two objects: the fences that combine WHERE with MATCH / COMMANDS, PDEL and DROP of objects rejected by WHERE
+        sc2b = scene("where2", F_EQ, ["A", "N", "D"], [a_nearby()], fences_where()[::2])
+        cover("where2", sc2b, IDS2, [0, 5, 20], [-1, 5, 20], [], [1], timeout=2400)
 
     # ---- scene 3: several areas in one scene (shapes), random long behaviours, a large population
     def shapes(frame, name):
@@ -491,11 +493,11 @@ def run(ctx):
         return scene(name, frame, ["A", "B", "C", "D", "E", "H", "K", "N", "M", "S"], areas, fs)
 
     simulate("shapesTile", shapes(F_TILE, "shapesTile"), IDS3, [0, 5, 20], [-1, 5, 20], [2, 1], ctx.pick(25, 40),
-             ctx.pick([(2000, 12), (50, 48)], [(2000, 100), (50, 300)]), rereg=ctx.pick(2, 30))
+             ctx.pick([(2000, 12), (50, 48)], [(2000, 40), (50, 160)]), rereg=ctx.pick(2, 8))
 
     if not ctx.quick:
-        simulate("shapesHash", shapes(F_HASH, "shapesHash"), IDS3, [0, 5, 20], [-1, 5, 20], [2, 1], 40, [(1, 200), (50, 200)], rereg=100)
-        simulate("shapesSouth", shapes(F_SOUTH, "shapesSouth"), IDS3, [0, 5, 20], [-1, 5, 20], [2, 1], 40, [(0, 400)])
+        simulate("shapesHash", shapes(F_HASH, "shapesHash"), IDS3, [0, 5, 20], [-1, 5, 20], [2, 1], 40, [(1, 100), (50, 100)], rereg=8)
+        simulate("shapesSouth", shapes(F_SOUTH, "shapesSouth"), IDS3, [0, 5, 20], [-1, 5, 20], [2, 1], 40, [(0, 200)])
         # complete transition covers on the other shapes: the U-shaped polygon (a notch: outside inside the bounding
         # rectangle), the circle (corners of its bounding rectangle), a tile and a geohash cell, INTERSECTS with a straddling object
         for name, frame, area, cells, others, spin in (
@@ -504,7 +506,7 @@ def run(ctx):
                 ("coverTile", F_TILE, dict(cmd="intersects", form="tile"), ["A", "B", "D", "E", "H", "S"], [1], True),
                 ("coverHash", F_HASH, dict(cmd="within", form="hash"), ["A", "C", "D", "H", "K", "S"], [50], False)):
             sc = scene(name, frame, cells, [area], fences_detect32() + fences_filters()[:4])
-            cover(name, sc, IDS2, [0], [-1], [2], others, spin=spin, rereg=100, timeout=2400)
+            cover(name, sc, IDS1, [0], [-1], [2], others, spin=spin, rereg=4, timeout=2400)
         seed0, rnd = ctx.seed, 0
         try:
             while time.time() - ctx.t0 < THOROUGH_BUDGET_S and rnd < 12:
@@ -512,7 +514,7 @@ def run(ctx):
                 ctx.seed = seed0 * 1000 + rnd
                 fr = [F_TILE, F_HASH, F_PHX, F_EQ, F_SOUTH][rnd % 5]
                 simulate("shapes_r%d" % rnd, shapes(fr, "shapes_r%d" % rnd), IDS3, [0, 5, 20], [-1, 5, 20], [2, 1], 40,
-                         [([0, 1, 50, 2000][rnd % 4], [300, 300, 300, 60][rnd % 4])], rereg=60)
+                         [([0, 1, 50, 2000][rnd % 4], [150, 150, 150, 40][rnd % 4])], rereg=8)
         finally:
             ctx.seed = seed0
         ctx.log("%d extra simulation rounds" % rnd)
